@@ -244,6 +244,8 @@ def replay(W, behaviour, observe_every=True):
                               policy_uri='urn:seq:%d' % seq, created=created)
                     if prim:
                         kw['primary'] = True
+                    elif seq % 2 == 1:
+                        kw['primary'] = False
                     run(lambda: key.add_uid(uid, **kw))
                 elif op == 'recertify':
                     seq += 1
@@ -252,6 +254,8 @@ def replay(W, behaviour, observe_every=True):
                     kw = dict(usage=set(fl), hashes=list(hp), policy_uri='urn:seq:%d' % seq, created=created)
                     if prim:
                         kw['primary'] = True
+                    elif seq % 2 == 0:
+                        kw['primary'] = False          # an explicit "not primary" (subpacket present with value 0) instead of no subpacket
                     s = run(lambda: key.certify(u, level=SignatureType.Positive_Cert, **kw))
                     u |= s
                 elif op in ('third', 'third-local'):
